@@ -194,12 +194,19 @@ fn call(i: usize, ins: &[Vec<u8>]) -> String {
             let a = first_avp(&ins[6]);
             format!("{:?}", a.hide(b"secret", &RandomVector { value: [1, 2, 3, 4] }, &[9, 9, 9], &[7u8; 16]))
         }
-        _ => {
+        10 => {
             tick();
             let a = first_avp(&ins[6]);
             let h = a.hide(b"secret", &RandomVector { value: [1, 2, 3, 4] }, &[9, 9, 9], &[7u8; 16]);
-            let key: &[u8] = if i == 10 { b"secret" } else { b"Secret" };
-            format!("{:?}", h.reveal(key, &RandomVector { value: [1, 2, 3, 4] }))
+            format!("{:?}", h.reveal(b"secret", &RandomVector { value: [1, 2, 3, 4] }))
+        }
+        _ => {
+            tick();
+            let a = first_avp(&ins[7]);
+            let h = a.hide(b"Secret", &RandomVector { value: [9, 8, 7, 6] }, &[5], &[3u8; 16]);
+            let shown = format!("{h:?}");
+            let b = first_avp(&ins[6]).hide(b"secret", &RandomVector { value: [1, 2, 3, 4] }, &[9, 9, 9], &[7u8; 16]);
+            format!("{shown} / {:?} / {:?}", h.reveal(b"Secret", &RandomVector { value: [9, 8, 7, 6] }), b.reveal(b"Secret", &RandomVector { value: [1, 2, 3, 4] }))
         }
     }));
     match r {
